@@ -183,6 +183,10 @@ class FnInfo:
             if c is not None and c < 0: return A(0) + c          # x + (-k)
             return A(0) + A(1)
         if op == "sub": return A(0) - A(1)
+        if op in ("mul", "shl") and (type_bits(i["t"]) or 64) < 64 and not i.get("nuw") and self.may_wrap(i):
+            # a product in a narrow type whose operands are not known to be small (e.g. a 32-bit count read from the input times an
+            # element size) can wrap: the mathematical product says nothing about the value that is compared afterwards
+            return Lin.atom(("wrap", i.id))
         if op == "mul":
             if cint(1) is not None: return A(0).scale(cint(1))
             if cint(0) is not None: return A(1).scale(cint(0))
@@ -211,6 +215,15 @@ class FnInfo:
                 if a.is_const(): return b.scale(a.c)
                 if b.is_const(): return a.scale(b.c)
         return Lin.atom(("i", i.id))
+
+    def may_wrap(self, i):
+        from .ival import Intervals, INF
+        iv = self.__dict__.get("_iv")
+        if iv is None: iv = self._iv = Intervals(self.fn, None, None)
+        a = iv.ival(i.ops[0]); b = iv.ival(i.ops[1]); top = (1 << (type_bits(i["t"]) or 64)) - 1
+        if a[1] == INF or b[1] == INF or a[0] < 0 or b[0] < 0: return True
+        hi = a[1] * b[1] if i.op == "mul" else (a[1] << b[1] if b[1] < 64 else INF)
+        return hi > top
 
     def token_lin(self, tok):
         if tok[0] == "cv":
